@@ -16,6 +16,7 @@ def run(repo, res, tier):
     res.assumptions = ["dateutil is absent from the interpreter that runs pvl"]
     an = langrules.analyse(repo)
     langrules.rule_s1(repo, res, an, "omni")
+    langrules.rule_snum(repo, res, an, which=("omni",))
     langrules.rule_o1(repo, res, an)
     langrules.rule_o2(repo, res, an)
     langrules.rule_fold(repo, res, an)
